@@ -246,6 +246,7 @@ class Body:
         self.abi = j.get('abi')
         self.vis = j.get('vis')
         self.parent = j.get('parent')
+        self.param_bounds = j.get('param_bounds', [])
         self._doms = None
         self._preds = None
         self._defs = None
@@ -493,6 +494,7 @@ class Crate:
         self.consts = {c['path']: c for c in j['consts']}
         self.adts = {a['path']: a for a in j['adts']}
         self.impls = j['impls']
+        self.traits = {t['path']: t['supertraits'] for t in j.get('traits', [])}
 
     def const_int(self, path):
         c = self.consts.get(path)
@@ -1298,8 +1300,8 @@ def norm_q(path):
                     rest = s[i + 1:]
                     if ' as ' in inner:
                         a, b = inner.split(' as ', 1)
-                        return '<%s as %s>%s' % (norm(a), norm(b), norm(rest))
-                    return '<%s>%s' % (norm(inner), norm(rest))
+                        return '<%s as %s>%s' % (norm(a), norm(b), ('::' + norm(rest)) if rest else '')
+                    return '<%s>%s' % (norm(inner), ('::' + norm(rest)) if rest else '')
     return norm(s)
 
 
@@ -1424,3 +1426,226 @@ def const_eval(body, op, depth=0):
         except Exception:
             return None
     return None
+
+
+# ------------------------------------------------------------------ workspace call resolution / call graph
+CRATE_OF_PKG = {'mla': 'mla', 'curve25519-parser': 'curve25519_parser', 'mlar': 'mlar', 'mla-bindings-c': 'mla', 'mla-fuzz-afl': 'mla_fuzz_afl'}
+_GENERIC_TOKEN = re.compile(r'(?<![A-Za-z0-9_:])([A-Z][A-Z0-9]?)(?![A-Za-z0-9_])')
+
+
+def _index(prog):
+    if getattr(prog, '_idx', None) is None:
+        by_path = {}
+        impls = collections.defaultdict(list)
+        for pkg, c in prog.crates.items():
+            for b in c.bodies:
+                by_path[(pkg, b.defpath)] = b
+                if b.impl_trait and b.kind != 'Closure':
+                    impls[(b.impl_trait, b.name)].append(b)
+        prog._idx = (by_path, impls)
+    return prog._idx
+
+
+def possibly_workspace_type(prog, ty):
+    if 'dyn ' in ty:
+        return True
+    if _GENERIC_TOKEN.search(ty):
+        return True
+    for pkg, c in prog.crates.items():
+        for path, a in c.adts.items():
+            if a.get('local') and path in ty:
+                return True
+    return False
+
+
+def resolve_call(prog, body, t):
+    """candidate workspace bodies a call may enter. Returns (list_of_bodies, exact: bool)"""
+    by_path, impls = _index(prog)
+    if t.kind not in ('call', 'tailcall') or 'indirect' in t.callee:
+        return [], False
+    pkg = body.pkg
+    for path in (t.callee.get('resolved'), t.callee.get('def')):
+        if not path:
+            continue
+        b = by_path.get((pkg, path))
+        if b is not None and t.callee.get('res') == 'item':
+            return [b], True
+        # other crates
+        for opkg, cname in CRATE_OF_PKG.items():
+            if opkg == pkg:
+                continue
+            if path.startswith(cname + '::'):
+                b = by_path.get((opkg, path[len(cname) + 2:]))
+                if b is not None and t.callee.get('res') == 'item':
+                    return [b], True
+    tr = t.ctrait
+    if tr:
+        # cross-crate trait names carry the crate prefix: normalise both spellings
+        names = {tr}
+        for cname in set(CRATE_OF_PKG.values()):
+            if tr.startswith(cname + '::'):
+                names.add(tr[len(cname) + 2:])
+            else:
+                names.add(cname + '::' + tr)
+        st = t.callee.get('self_ty', '')
+        if t.callee.get('res') != 'item' or possibly_workspace_type(prog, st):
+            cands = []
+            for n in names:
+                cands += impls.get((n, t.cmethod), [])
+            # concrete external self type resolved to an external item: no workspace target
+            if t.callee.get('res') == 'item' and not possibly_workspace_type(prog, st):
+                return [], True
+            return cands, False
+    return [], True
+
+
+WS_CRATES = set(CRATE_OF_PKG.values())
+
+
+def _strip_crate(path):
+    for cname in WS_CRATES:
+        if path.startswith(cname + '::'):
+            return path[len(cname) + 2:]
+    return path
+
+
+def _ws_traits(prog):
+    """workspace trait path (crate-local spelling) -> supertraits (same spelling for workspace ones)"""
+    if getattr(prog, '_wst', None) is None:
+        d = {}
+        for pkg, c in prog.crates.items():
+            for tpath, sup in c.traits.items():
+                d[tpath] = [_strip_crate(x) for x in sup]
+        prog._wst = d
+    return prog._wst
+
+
+def external_trait_closure(prog, trait):
+    """set of non-workspace traits implied by `trait` (itself if external)"""
+    wst = _ws_traits(prog)
+    out = set()
+    seen = set()
+    st = [_strip_crate(trait)]
+    while st:
+        t = st.pop()
+        if t in seen:
+            continue
+        seen.add(t)
+        if t in wst:
+            st.extend(wst[t])
+        else:
+            out.add(t)
+    out.discard('std::marker::MetaSized')
+    out.discard('std::marker::Sized')
+    out.discard('std::marker::Send')
+    return out
+
+
+def callback_targets(prog, body, t):
+    """workspace impls of external traits that an external callee may call back through the types it is instantiated with"""
+    by_path, impls = _index(prog)
+    if getattr(prog, '_ext_impls', None) is None:
+        wst = _ws_traits(prog)
+        ext = collections.defaultdict(list)      # impl_adt -> bodies of external-trait impls
+        by_trait = collections.defaultdict(list)  # external trait -> bodies
+        implementors = collections.defaultdict(set)  # workspace trait -> impl_adt
+        for b in prog.bodies():
+            if b.impl_trait and b.kind != 'Closure':
+                tr = _strip_crate(b.impl_trait)
+                if tr in wst:
+                    if b.impl_adt:
+                        implementors[tr].add(b.impl_adt)
+                else:
+                    if b.impl_adt:
+                        ext[b.impl_adt].append(b)
+                    by_trait[tr].append(b)
+        prog._ext_impls = (ext, by_trait, implementors)
+    ext, by_trait, implementors = prog._ext_impls
+    tys = list(t.arg_tys) + list(t.callee.get('targs', [])) + [t.callee.get('self_ty', '')]
+    out = {}
+    root = body
+    bounds = collections.defaultdict(set)
+    for name, tr in body.param_bounds:
+        bounds[name].add(tr)
+    for ty in tys:
+        if not ty:
+            continue
+        for adt in ext:
+            if adt in ty or _strip_crate(adt) in ty:
+                for b in ext[adt]:
+                    out[b.key] = b
+        # trait objects of workspace traits
+        for m in re.finditer(r"dyn (?:'[a-z_]+ \+ )?([A-Za-z0-9_:]+)", ty):
+            tr = _strip_crate(m.group(1))
+            if tr in _ws_traits(prog):
+                ets = external_trait_closure(prog, tr)
+                for adt in implementors.get(tr, ()):
+                    for b in ext.get(adt, []):
+                        if _strip_crate(b.impl_trait) in ets:
+                            out[b.key] = b
+        for m in _GENERIC_TOKEN.finditer(ty):
+            g = m.group(1)
+            ets = set()
+            for tr in bounds.get(g, ()):
+                ets |= external_trait_closure(prog, tr)
+            for et in ets:
+                for b in by_trait.get(et, []):
+                    out[b.key] = b
+    return list(out.values())
+
+
+def call_graph(prog, pkgs=None):
+    """key -> set of callee keys (closures are linked from the body that creates them)"""
+    if getattr(prog, '_cg', None) is not None:
+        return prog._cg
+    by_path, impls = _index(prog)
+    g = collections.defaultdict(set)
+    for body in prog.bodies():
+        for b in body.blocks:
+            t = b.term
+            if t.kind in ('call', 'tailcall'):
+                cands, _ = resolve_call(prog, body, t)
+                for cb in cands:
+                    g[body.key].add(cb.key)
+                if not cands and t.callee.get('krate') not in WS_CRATES and 'indirect' not in t.callee:
+                    for cb in callback_targets(prog, body, t):
+                        g[body.key].add(cb.key)
+            for s in b.stmts:
+                if s.kind == 'assign' and s.rv.r == 'aggregate' and s.rv.j.get('agg') == 'closure':
+                    cb = by_path.get((body.pkg, s.rv.j['closure']))
+                    if cb is not None:
+                        g[body.key].add(cb.key)
+            # function items passed as values (e.g. map(SizesInfo::get_compressed_size))
+            ops = []
+            for s in b.stmts:
+                if s.kind == 'assign':
+                    ops += s.rv.ops
+            if t.kind in ('call', 'tailcall'):
+                ops += t.args
+            for op in ops:
+                if op.kind == 'const' and op.k.get('fn'):
+                    fb = by_path.get((body.pkg, op.k['fn']))
+                    if fb is None:
+                        for opkg, cname in CRATE_OF_PKG.items():
+                            if op.k['fn'].startswith(cname + '::'):
+                                fb = by_path.get((opkg, op.k['fn'][len(cname) + 2:]))
+                                if fb is not None:
+                                    break
+                    if fb is not None:
+                        g[body.key].add(fb.key)
+    prog._cg = g
+    prog._bykey = {b.key: b for b in prog.bodies()}
+    return g
+
+
+def reachable_bodies(prog, roots):
+    g = call_graph(prog)
+    seen = set()
+    st = [r.key for r in roots]
+    while st:
+        k = st.pop()
+        if k in seen:
+            continue
+        seen.add(k)
+        st.extend(g.get(k, ()))
+    return [prog._bykey[k] for k in seen if k in prog._bykey]
